@@ -101,6 +101,11 @@ func ParseDecimal(s string) (Decimal, error) {
 		return Decimal{}, fmt.Errorf("%w: missing decimal point", errDecimal)
 	}
 
+	// strconv.ParseInt accepts a leading '+', which is not part of the Cedar decimal syntax.
+	if s[0] == '+' {
+		return Decimal{}, fmt.Errorf("%w: unexpected character '+'", errDecimal)
+	}
+
 	intPart, err := strconv.ParseInt(s[0:decimalIndex], 10, 64)
 	if err != nil {
 		if errors.Is(err, strconv.ErrRange) {
